@@ -190,7 +190,7 @@ class Trace:
         c = self.conn
         from aioesphomeapi.connection import ConnectionState as S
         cs = {S.INITIALIZED: "INIT", S.SOCKET_OPENED: "SOCK", S.HANDSHAKE_COMPLETE: "HS", S.CONNECTED: "CONN", S.CLOSED: "CLOSED"}[c.connection_state]
-        u = lambda t: "-" if t is None else str(round((t.when() - simnet.CLOCK_BASE) * 1024))
+        u = lambda t: "-" if t is None else str(round((t.when() - self.loop.base) * 1024))
         hs = []
         for cls, handlers in priv(c, "_message_handlers").items():
             ty = simnet.msg_type_id(cls)
@@ -333,7 +333,9 @@ class Trace:
         if k == "start":
             if any(tid == "S" and not t.done() for t, tid in self.tasks.items()):
                 return "silent"
-            t = self.loop.create_task(c.start_connection())
+            async def start():        # the caller's coroutine: the method is called when the task first runs
+                return await c.start_connection()
+            t = self.loop.create_task(start())
             self.tasks[t] = "S"
             self.first_label[t] = "start"
             return None
@@ -352,14 +354,18 @@ class Trace:
                     self.cur_action_label = self.cur_action_label or "send:33"
                 t = self.loop.create_task(finish_then_send())
             else:
-                t = self.loop.create_task(c.finish_connection(login=bool(a[1])))
+                async def finish(login=bool(a[1])):
+                    return await c.finish_connection(login=login)
+                t = self.loop.create_task(finish())
             self.tasks[t] = "F"
             self.first_label[t] = f"finish:{int(a[1])}"
             return None
         if k == "disc":
             if "D" in self.tasks.values():
                 return "silent"
-            t = self.loop.create_task(c.disconnect())
+            async def disc():
+                return await c.disconnect()
+            t = self.loop.create_task(disc())
             self.tasks[t] = "D"
             self.first_label[t] = "disc"
             return None
